@@ -76,6 +76,8 @@ pub fn prefix_sub(elem: &BigInt, field: &BigInt) -> BigInt {
 // 256 bit complement
 pub fn complement_256(elem: &BigInt, field: &BigInt) -> BigInt {
     let (sign, mut bit_repr) = bit_representation(elem);
+    // Zero has no sign, but its complement is non-zero.
+    let sign = if sign == Sign::NoSign { Sign::Plus } else { sign };
     while bit_repr.len() > 256 {
         bit_repr.pop();
     }
